@@ -801,8 +801,10 @@ func (x *Exec) externalSafety(s *State, f *Frame, cc *CallCtx) {
 	}
 	c := cc.Common
 	if c.IsInvoke() {
-		recv := x.scalar(cc.Args[0])
-		x.safety(s, f, cc.Instr, "nil-interface-method-call", Neq(recv, IntLit(0)))
+		if x.NilInterfaceSafety {
+			recv := x.scalar(cc.Args[0])
+			x.safety(s, f, cc.Instr, "nil-interface-method-call", Neq(recv, IntLit(0)))
+		}
 		return
 	}
 	fn, ok := c.Value.(*ssa.Function)
